@@ -435,7 +435,8 @@ def queries_for(rng, msg, n):
     qs = []
     for _ in range(n):
         i = rng.choice(ids)
-        form = rng.choice(['%s', '%s', '>%s', '/%s', '@[0] > %s', '@[-1]>%s', '@[::2] > %s', '%s[0]', '%s[::2]', '%s[-1]', '/%s > ' + i, '@[5] > %s'])
+        form = rng.choice(['%s', '%s', '>%s', '/%s', '@[0] > %s', '@[-1]>%s', '@[::2] > %s', '%s[0]', '%s[::2]', '%s[-1]', '/%s > ' + i, '@[5] > %s',
+                           '@[::-1] > %s', '@[-1::-2]>%s', '@[3:0:-1] %s', '@[:-3:-1]/%s'])
         q = form % (rng.choice(top) if form.startswith('/%s >') else i)
         qs.append(q)
     qs.append('999999')
@@ -657,6 +658,16 @@ def char_classes(ctx):
 
 def run(ctx):
     ctx.corr_breaks = []
+    if os.environ.get('VERIF_C18_PARTS') == 'exec':
+        # diagnosis only (notes/C18_exec_mutations.py): the execution part on generated messages alone
+        from harness.props import c18exec
+        ctx.rule = 'diagnosis run: execution part on generated messages only'
+        c18exec.run_exec_generated(ctx)
+        if ctx.corr_breaks and ctx.violations == 0:
+            b = ctx.corr_breaks[0]
+            ctx.violation('correspondence model<->script.py broken on %d cases; first %s' % (len(ctx.corr_breaks), json.dumps(b, default=repr)[:300]),
+                          {'correspondence': 'script', 'first': b}, signature={'kind': 'correspondence'}, no_failing_input=True)
+        return
     maxlen = 6 if ctx.tier == 'quick' else 7
     ctx.rule = ('exhaustive: all strings of length 0..%d over %r by index on both sides; all segment lists of length <= %d over a 14-segment '
                 'pool; random segment assemblies (<= 30 segments, repeated expressions with different blanks, Unicode blanks) well-formed '
@@ -736,6 +747,9 @@ def run(ctx):
     # 6. execution
     run_exec(ctx, ctx.rng('exec'))
     synthetic_flatten(ctx, ctx.rng('flatten'))
+    # 7. execution on generated multi-subset messages x the queries of C16 x selectors of every shape (harness/props/c18exec.py)
+    from harness.props import c18exec
+    c18exec.run_exec_generated(ctx)
     if ctx.corr_breaks and ctx.violations == 0:
         b = ctx.corr_breaks[0]
         ctx.violation('correspondence model<->script.py broken on %d cases although the property holds on them; first %s'
@@ -754,6 +768,9 @@ def replay(ctx, path):
     if 'string' in rp:
         check_strings(ctx, [rp['string']], 'replay')
         print(json.dumps({'impl': impl_pre(rp['string']), 'expected': oracle_pre(rp['string'])}))
+    elif rp.get('exec_generated'):
+        from harness.props import c18exec
+        c18exec.replay_exec(ctx, rp)
     elif 'arg' in rp:
         check_runners(ctx, [(rp['script'], rp['arg'], 'unspecified')], 'replay')
         print(json.dumps({'impl': impl_runner(rp['script'], rp['arg'])}))
